@@ -305,6 +305,16 @@ namespace Xmp.C13Timeline
 open Xmp.Gen.MixerConsts
 open Xmp.Downmix (Fmt prepareTicksize)
 
+/-- **C13_tick_path_config_free**: the sequencing half of `xmp_play_frame` — the `seq` component of the `Machine` of
+`C13_timeline`, which has no configuration argument — is what the code does: the frame function itself reads no volume or
+output setting before the mixer runs, and the per-tick channel update (`play_channel`: where IT tempo slides, delayed
+events and pattern-delay bookkeeping happen) runs for every virtual channel whatever its audibility.  Facts regenerated
+from src/player.c on every run; the writers of the kernel fields inside `play_channel` and below are covered by
+`C13_timeline_writers`, their dependence on volume settings by the lockstep oracle (one context at master volume 0, one
+with muted channels, on generated modules whose tempo is driven by per-tick effects). -/
+theorem C13_tick_path_config_free : tickLoopUnconditional = some 1 ∧ playFrameConfigReads = some [] :=
+  tick_path_config_free
+
 /-- **C13_tempo_factor_format_independent**: two contexts with the same sampling rate — whatever their
 sample formats (mono/stereo, 8/16 bit, signedness), interpolators, amplification, separation, volume, DSP
 settings — give the same answer to `xmp_set_tempo_factor` and are left with the same sequencer-side state
